@@ -103,6 +103,9 @@ func hook(ev int, m *mangos.Message, sz int) {
 	case 4: // release
 		l.Releases++
 		if e != nil {
+			if e.released {
+				kit.Failf("double-release", "a message was returned to the buffer pool twice (two Free calls both took the last reference)")
+			}
 			e.released = true
 		}
 	}
